@@ -10,11 +10,11 @@ PROPS = {
     "C03": {"coq": "Properties/C03.v", "params": ["Proofs/ParamsBundle.vo"], "gens": ["C03"]},
     "C04": {"coq": "Properties/C04.v", "params": ["Proofs/ParamsBundle.vo"], "gens": ["C04"]},
     "C05": {"coq": "Properties/C05.v", "params": ["Proofs/ParamsBundle.vo"], "gens": ["C05"]},
-    "C06": {"coq": "Properties/C06.v", "params": ["Proofs/ParamsBundle.vo"], "gens": ["C06"], "trusted_base": CRYPTO_TB},
+    "C06": {"coq": "Properties/C06.v", "params": ["Proofs/ParamsBundle.vo"], "gens": ["C06", "C06x"], "trusted_base": CRYPTO_TB},
     "C07": {"coq": "Properties/C07.v", "params": ["Proofs/ParamsIB.vo"], "gens": ["C07"], "trusted_base": CRYPTO_TB, "bins": True},
     "C08": {"coq": "Properties/C08.v", "params": ["Proofs/ParamsSxg.vo"], "gens": ["C08"], "trusted_base": CRYPTO_TB},
     "C09": {"coq": "Properties/C09.v", "params": ["Proofs/ParamsSxg.vo"], "gens": ["C09"], "trusted_base": CRYPTO_TB},
-    "C10": {"coq": "Properties/C10.v", "gens": ["C10", "C05", "C15", "C16"]},
+    "C10": {"coq": "Properties/C10.v", "gens": ["C10", "C05", "C15", "C16", "C06x"]},
     "C11": {"coq": "Properties/C11.v", "gens": ["C11"]},
     "C12": {"coq": "Properties/C12.v", "gens": ["C12"]},
     "C13": {"coq": "Properties/C13.v", "gens": ["C13"]},
